@@ -217,6 +217,12 @@ func (tc *typechecker) checkConstantDeclaration(node *ast.Const) {
 			constType = ti.Type
 		} else {
 			constType = typ.Type
+			// The value of an untyped constant is converted to the type.
+			if ti.Untyped() {
+				if c, err := ti.Constant.representedBy(constType); err == nil {
+					constValue = c
+				}
+			}
 		}
 
 		// Declare the constant in the current block/scope.
